@@ -33,12 +33,12 @@ BUDGET = {'quick': 900, 'thorough': 8000}
 RULE = ('det mode: 1..4 snapshots (thorough ..7), each with an outcome (ok / unconvertible / send raises Exception / '
         'send raises BaseException / body dies before sending with either class); a random interleaving of push, '
         'start (any queued task, any order), finish, callback, pushes also split into their regions (pushBegin = up to '
-        'pool.submit, pushStore = the store + callback attachment, with starts/finishes in between), one or two flushes started at a random point, and '
+        'pool.submit, pushStore = the store + callback attachment, with starts/finishes in between), one or two flushes started at a random point, pushes that meet an executor refusing new work (pushRejected: the step pool raises RuntimeError from submit, ~7% per choice point), and '
         'pushes after flush began; 90% of schedules run to completion. pool mode (1 in 12): real 2-worker pool, 1..5 '
         'snapshots failing in send or ok, flush started while tasks are still blocked in send, released in random '
         'order. Non-trivial = a task that fails was still unfinished when flush began, or a callback ran after flush '
         'had moved past its task, or a push came after flush began. Distinct = distinct canonical JSON of the case.')
-TRUSTED = ['the executor: a callable accepted by pool.submit runs exactly once on a pool thread; Future.result() blocks '
+TRUSTED = ['the executor: pool.submit either accepts the callable or raises (RuntimeError after shutdown); a callable accepted by pool.submit runs exactly once on a pool thread; Future.result() blocks '
            'until done and re-raises; done-callbacks run after completion (model semantics, Model/Tasks.lean)',
            'dict.values() / list(view) of the handler\'s own dict do not raise (whitelist of c09_flush_skeleton_guarded)',
            'threading.Event / Semaphore / Thread behave as documented (gates)']
@@ -130,6 +130,10 @@ class StepPool:
 
     def submit(self, fn, *args, **kw):
         b = self.bench
+        if b.reject_next:
+            # the executor refuses new work, as a ThreadPoolExecutor does once it (or the interpreter) was shut down
+            b.reject_next = False
+            raise RuntimeError('cannot schedule new futures after shutdown')
         f = ObsFuture()
         f.bench = b
         self.jobs.append(Job(len(self.jobs) + 1, fn, args, f))
@@ -186,9 +190,13 @@ class GateDict(dict):
             if not job.cb_go.wait(WAIT):
                 raise TimeoutError('callback gate')
             job.cb_done = True
-        elif job is None and b.pool is not None and isinstance(key, int) and 1 <= key <= len(b.pool.jobs):
-            # the done-callback run at once by add_done_callback on an already finished future (caller's thread)
-            b.pool.jobs[key - 1].cb_done = True
+        elif job is None and b.pool is not None:
+            # the done-callback run at once by add_done_callback on an already finished future (caller's thread);
+            # the job is found by its future (job ids and pool positions differ once the executor refused a push)
+            fut = dict.get(self, key)
+            for j in b.pool.jobs:
+                if fut is not None and j.future is fut:
+                    j.cb_done = True
         return super().__contains__(key)
 
     def values(self):
@@ -294,6 +302,7 @@ class Bench:
         self.caller = threading.current_thread()
         self.callers = {self.caller}       # threads that call push_snapshot (the application side)
         self.pushing_k = None
+        self.reject_next = False
         self.park_submit = False
         self.submit_parked = threading.Event()
         self.submit_go = threading.Event()
@@ -358,6 +367,14 @@ class Bench:
             return
         if len(self.accepted) != n + 1:
             self.refused.append((k, 'silently-not-submitted', False))
+
+    def do_push_rejected(self):
+        """push_snapshot while the executor refuses new work (`pool.submit` raises RuntimeError)"""
+        self.reject_next = True
+        try:
+            self.do_push()
+        finally:
+            self.reject_next = False
 
     def do_push_begin(self):
         """push_snapshot on an application thread of its own, stopped inside submit_task right after pool.submit"""
@@ -602,6 +619,8 @@ def run_det(case):
             s = st['s']
             if s == 'push':
                 b.do_push()
+            elif s == 'pushRejected':
+                b.do_push_rejected()
             elif s == 'pushBegin':
                 b.do_push_begin()
             elif s == 'pushStore':
@@ -789,6 +808,8 @@ def gen_det(rng, tier):
                     opts += ['pushBegin']
             if not open_ and pushed < n + extra:
                 opts += ['push', 'pushBegin']
+            if pushed < n + extra and rng.random() < 0.07:
+                opts += ['pushRejected']
         else:
             opts += ['pushStore'] * 2
         if queued:
@@ -815,6 +836,9 @@ def gen_det(rng, tier):
                 queued.append(accepted)
                 if a == 'pushBegin':
                     window = accepted
+        elif a == 'pushRejected':
+            sched.append({'s': 'pushRejected'})
+            pushed += 1
         elif a == 'pushStore':
             sched.append({'s': 'pushStore', 'id': window})
             if window in finished:            # the done-callback runs at once when attached to a finished future
@@ -977,6 +1001,9 @@ def corpus():
         {'mode': 'det', 'outcomes': ['ok'], 'sched': [P, st(1), F, {'s': 'flush2Begin'}, fi(1), cb(1)]},
         {'mode': 'det', 'flush1_times_out': True, 'outcomes': ['ok', 'send_exc'],
          'sched': [P, P, st(1), st(2), F, F, fi(2), cb(2), fi(1), cb(1)]},
+        # the executor refuses the second push (its id is used up), the others are delivered once; refused again after close
+        {'mode': 'det', 'outcomes': ['ok', 'ok', 'send_exc', 'ok'],
+         'sched': [P, {'s': 'pushRejected'}, P, st(1), st(2), F, fi(2), fi(1), cb(1), cb(2), {'s': 'pushRejected'}]},
         # 20 failing tasks (the suite's test, with the schedule pinned)
         {'mode': 'det', 'outcomes': ['dies_exc', 'dies_base', 'send_exc'],
          'sched': [P, P, P, st(1), st(2), st(3), fi(3), fi(2), fi(1), F, cb(1), cb(2), cb(3)]},
@@ -998,7 +1025,21 @@ def accepted_outcomes(case, obs_state):
             if not closed and k < len(case['outcomes']):
                 outs.append(case['outcomes'][k])
             k += 1
+        elif st['s'] == 'pushRejected':
+            k += 1                    # the snapshot is used up, no task exists for it
     return outs
+
+
+def rejected_snapshots(case):
+    """indexes of the snapshots whose push met an executor that refuses new work"""
+    ks, k = set(), 0
+    for st in case['sched']:
+        if st['s'] in ('push', 'pushBegin'):
+            k += 1
+        elif st['s'] == 'pushRejected':
+            ks.add(k)
+            k += 1
+    return ks
 
 
 def judge_state(case, o, where, pushes_after_close, outs):
@@ -1024,7 +1065,10 @@ def judge_state(case, o, where, pushes_after_close, outs):
                  f'dies of this: the failure is not contained)')
     if o.get('dead_workers'):
         v.append(f'{where}: {o["dead_workers"]} worker thread(s) of the pool died')
+    rej = rejected_snapshots(case)
     for k, name, is_exc in o['refusals']:
+        if k in rej and name != 'silently-not-submitted':
+            continue                  # the executor's refusal handed to the caller: the visible refusal
         if name not in ('IllegalStateException', 'silently-not-submitted'):
             v.append(f'{where}: push_snapshot of snapshot {k} raised {name} on the application thread')
     if o['caller_sends']:
@@ -1081,7 +1125,12 @@ def oracle(case, obs):
         where = f'after step {n} ({st["s"]}{" " + str(st["id"]) if "id" in st else ""})'
         if st['s'] == 'flushBegin':
             closed = True
-        if st['s'] in ('push', 'pushBegin') and closed:
+        if st['s'] == 'pushRejected' and not closed:
+            want_ref += 1
+            if o['refused'] != want_ref:
+                v.append(f'{where}: the executor refused the task and push_snapshot did not hand that to its caller '
+                         f'({o["refused"]} refusals so far, {want_ref} expected): the snapshot is dropped silently')
+        if st['s'] in ('push', 'pushBegin', 'pushRejected') and closed:
             want_ref += 1
             if o['refused'] != want_ref:
                 v.append(f'{where}: a push after flush closed the handler was not refused visibly '
@@ -1142,6 +1191,21 @@ def model_request(case, obs):
     # outcomes by job id = outcomes of the accepted pushes, in order
     outs = accepted_outcomes(case, None)
     sched = pool_model_sched({'outcomes': outs, 'sched': case['sched']}) if case['mode'] == 'pool' else case['sched']
+    if any(st['s'] == 'pushRejected' for st in case['sched']):
+        # the schedule names tasks in the order they were accepted; the handler's job ids (which the model uses) skip
+        # the ids used up by pushes the executor refused while the handler was open
+        job_of, by_job, jid, closed = {}, [], 0, False
+        for st in case['sched']:
+            if st['s'] == 'flushBegin':
+                closed = True
+            elif st['s'] in ('push', 'pushBegin', 'pushRejected') and not closed:
+                jid += 1
+                by_job.append('ok')
+                if st['s'] != 'pushRejected':
+                    job_of[len(job_of) + 1] = jid
+                    by_job[-1] = outs[len(job_of) - 1] if len(job_of) - 1 < len(outs) else 'ok'
+        sched = [dict(st, id=job_of.get(st['id'], st['id'])) if 'id' in st else st for st in sched]
+        outs = by_job
     return {'outcomes': outs, 'sched': sched, 'eager': True}
 
 
@@ -1196,6 +1260,8 @@ def _features(case):
             fin.add(st['id'])
         elif st['s'] == 'push' and closed:
             feats.add('push-after-close')
+        elif st['s'] == 'pushRejected':
+            feats.add('executor-refusal')
         elif st['s'] == 'callback' and closed:
             feats.add('callback-during-flush')
     return feats
